@@ -180,12 +180,15 @@ class _SimFile:
         self.disk, self.path, self.mode, self.fault = disk, path, mode, fault
         # The disk keeps what a utf-8 reader would see.  Any other encoding goes through its real codec (byte order
         # marks, characters the codec cannot express): bytes -> utf-8 text with surrogate escapes.
-        enc = (encoding or "utf-8").lower().replace("_", "-")
+        enc = (encoding or getattr(disk, "default_encoding", None) or "utf-8").lower().replace("_", "-")   # no encoding given: the locale's
         self.enc = None if enc in ("utf-8", "utf8") else enc
         self.encoder = codecs.getincrementalencoder(self.enc)() if self.enc else None
         self.closed = False
         self.n = 0
         self.writes = any(c in mode for c in "wax+")
+        if self.writes and hasattr(disk, "mtimes"):
+            disk.clock += 1
+            disk.mtimes[path] = disk.clock
         if "w" in mode:
             disk.files[path] = ""          # O_TRUNC is immediate
             disk.acked.pop(path, None)
@@ -289,6 +292,8 @@ class SimDisk:
     def __init__(self):
         self.files = {}
         self.acked = {}
+        self.mtimes = {}      # path -> simulated modification time (seconds of a clock that ticks with every open for writing)
+        self.clock = 1_600_000_000
         self.fired = {}
         self._faults = []
         self.opens = 0
@@ -325,9 +330,35 @@ class SimDisk:
         disk = self
         for k_, fn_ in real.items():
             setattr(osp, k_, (lambda fn: (lambda p: True if str(p) in disk.files else fn(p)))(fn_))
+        # ... and code that asks for size / modification time (os.stat, getmtime, getsize) gets the simulated file's: the
+        # modification time is a simulated clock that advances by one second with every open for writing
+        import os as _os
+        import types as _types
+        real_stat, real_gm, real_gs = _os.stat, osp.getmtime, osp.getsize
+
+        def _key(p):
+            sp_ = str(p)
+            if sp_ in disk.files:
+                return sp_
+            ap_ = [k for k in disk.files if _os.path.abspath(k) == sp_]
+            return ap_[0] if ap_ else None
+
+        def sim_stat(p, *a, **k):
+            kk = _key(p)
+            if kk is None:
+                return real_stat(p, *a, **k)
+            t = disk.mtimes.get(kk, 0)
+            size = len(disk.files[kk].encode("utf-8", "surrogateescape"))
+            return _types.SimpleNamespace(st_mode=0o100644, st_ino=abs(hash(kk)) % 10 ** 9, st_dev=1, st_nlink=1, st_uid=0, st_gid=0, st_size=size,
+                                          st_atime=float(t), st_mtime=float(t), st_ctime=float(t), st_atime_ns=t * 10 ** 9,
+                                          st_mtime_ns=t * 10 ** 9, st_ctime_ns=t * 10 ** 9)
+        _os.stat = sim_stat
+        osp.getmtime = lambda p: sim_stat(p).st_mtime
+        osp.getsize = lambda p: sim_stat(p).st_size
         try:
             yield self
         finally:
+            _os.stat, osp.getmtime, osp.getsize = real_stat, real_gm, real_gs
             for k_, fn_ in real.items():
                 setattr(osp, k_, fn_)
             if had:
@@ -362,3 +393,33 @@ class ProcessZone:
 
     def restore(self):
         self.set(self.saved)
+
+
+# --------------------------------------------------------------------------- configuration of the process (environment)
+
+
+class process_env:
+    """Configuration the deployment chooses, not the caller: pandas' copy-on-write mode (PANDAS_COPY_ON_WRITE / pd.options,
+    the default from pandas 3 on).  (The interpreter's -O flag is handled in core.exec_with_env: it needs a new interpreter.)"""
+
+    def __init__(self, env):
+        self.env = env or {}
+
+    def __enter__(self):
+        import pandas as pd
+        self.old = pd.options.mode.copy_on_write
+        if self.env.get("pandas_cow"):
+            pd.options.mode.copy_on_write = True
+        self.zone = None
+        if self.env.get("tz"):
+            # the zone of the machine (see ProcessZone): EAO treats naive dates as wall-clock times of the grid's zone
+            self.zone = ProcessZone()
+            self.zone.set(self.env["tz"])
+        return self
+
+    def __exit__(self, *a):
+        import pandas as pd
+        pd.options.mode.copy_on_write = self.old
+        if self.zone is not None:
+            self.zone.restore()
+        return False
